@@ -73,13 +73,44 @@ def check(s, where):
 cfgs = [(sc, {}) for sc in SCN.SCENARIOS[:nmax]]
 cfgs.append((dict(name='tiny_live', like='gauss', n_live=10, n_batch=1,
                   n_networks=0), dict(n_update=1)))
+import signal  # noqa: E402
+
+
+class Budget(Exception):
+    pass
+
+
+class Stop(Exception):
+    pass
+
+
+def _alarm(signum, frame):
+    raise Budget()
+
+
+signal.signal(signal.SIGALRM, _alarm)
+undecided = []
 for sc, over in cfgs:
     for disc in (False, True):
         s = SCN.make_sampler(sc, seed=1, **over)
         tag = '{}/discard={}'.format(sc['name'], disc)
-        SCN.run_with_hooks(s, lambda smp, w: (check(smp, tag + '/' + w)
-                                              if w == 'add_samples' else None),
-                           n_eff=300, discard_exploration=disc, verbose=False)
+
+        def cb(smp, w, tag=tag):
+            if w == 'add_samples':
+                check(smp, tag + '/' + w)
+                if bad:
+                    raise Stop()      # first inconsistent batch boundary
+        try:
+            signal.alarm(400)
+            SCN.run_with_hooks(s, cb, n_eff=300, discard_exploration=disc,
+                               verbose=False)
+            signal.alarm(0)
+        except Stop:
+            signal.alarm(0)
+            break
+        except Budget:
+            undecided.append(tag)
+            continue
         check(s, tag + '/end')
         s.discard_exploration = not disc
         check(s, tag + '/toggled')
@@ -87,5 +118,5 @@ for sc, over in cfgs:
             break
     if len(bad) > 5:
         break
-print(json.dumps(dict(violations=bad[:8])))
+print(json.dumps(dict(violations=bad[:8], undecided=undecided)))
 sys.exit(1 if bad else 0)
